@@ -191,14 +191,14 @@ def arcadrv():
     return os.path.join(LEAN, ".lake", "build", "bin", "arcadrv")
 
 
-def run_stream(harness, hargs, dargs, timeout=3000):
+def run_stream(harness, hargs, dargs, timeout=3000, skip0=0):
     """Run harness (cases) | arcadrv (verdicts); returns ([(case, verdict)], error text, [crash records]).
     A harness process that dies (a Go panic on any goroutine kills it) is restarted after the crashing case."""
     fd, path = tempfile.mkstemp(suffix=".jsonl", dir=BUILD)
     os.close(fd)
     cases, crashes, herr = [], [], None
     try:
-        skip = 0
+        skip = skip0
         for attempt in range(12):
             part = path + ".part"
             rc, o, e = sh([harness] + hargs + ["-out", part, "-skip", str(skip)], env=GOENV, timeout=timeout)
